@@ -123,6 +123,44 @@ def degenerate_heading(x):
     return False
 
 
+def _shapes_of(obj):
+    """The free-standing shapes of an object (regions in world coordinates), in a fixed order."""
+    from commonroad.geometry.shape import Shape
+    from commonroad.planning.goal import GoalRegion
+    from commonroad.prediction.prediction import SetBasedPrediction
+    from commonroad.scenario.obstacle import EnvironmentObstacle, PhantomObstacle, DynamicObstacle
+    out = []
+    if isinstance(obj, Shape):
+        out.append(obj)
+    elif isinstance(obj, GoalRegion):
+        out += [s.position for s in obj.state_list if isinstance(getattr(s, "position", None), Shape)]
+    elif isinstance(obj, SetBasedPrediction):
+        out += [o.shape for o in obj.occupancy_set]
+    elif isinstance(obj, EnvironmentObstacle):
+        out.append(obj.obstacle_shape)
+    elif isinstance(obj, (PhantomObstacle, DynamicObstacle)) and isinstance(obj.prediction, SetBasedPrediction):
+        out += [o.shape for o in obj.prediction.occupancy_set]
+    flat = []
+    for sh in out:
+        flat += list(getattr(sh, "shapes", [sh]))
+    return flat
+
+
+def _probe_points(shapes):
+    """Per shape one point well inside and one well outside (own geometry), or None."""
+    pts = []
+    for sh in shapes:
+        g = gg.lib_shape_geo(sh)
+        if g["k"] == "circle":
+            pts.append((list(g["c"]), [g["c"][0] + 3 * g["r"] + 1.0, g["c"][1]]))
+            continue
+        c = geom.polygon_centroid(g["v"])
+        inside, d = geom.point_in_polygon(c, g["v"])
+        size = max(abs(p[0] - c[0]) + abs(p[1] - c[1]) for p in g["v"])
+        pts.append((c if inside and d > 1e-3 * (1 + size) else None, [c[0] + 4 * size + 1.0, c[1]]))
+    return pts
+
+
 def run(build, r, ctx, n_points_min=2):
     t, a = r["m"]["t"], r["m"]["a"]
     if degenerate_heading(r["obj"]):
@@ -134,9 +172,26 @@ def run(build, r, ctx, n_points_min=2):
         obj = build(r["obj"])
         if r.get("prequery"):
             extract(obj)     # every lazily computed value (vertices, polygons, occupancies) exists before the motion
+        probes = _probe_points(_shapes_of(ref))
+        if r.get("prequery"):
+            for sh, (pin, pout) in zip(_shapes_of(obj), probes):
+                sh.contains_point(np.array(pout))
         moved = apply(obj, t, a)
         after = extract(moved)
         compare(before, after, t, a)
+        # a moved region contains the moved image of a point well inside it and not that of a point well outside
+        m_shapes = _shapes_of(moved)
+        if len(m_shapes) == len(probes):
+            for i, (sh, (pin, pout)) in enumerate(zip(m_shapes, probes)):
+                if pin is not None and not sh.contains_point(np.array(geom.rigid(pin, t, a))):
+                    raise Violation("moved-shape-rejects-inner-point", "shape %d (%s): image %r of the inner point %r is "
+                                    "not contained after translate_rotate(%r, %r)" % (
+                                        i, type(sh).__name__, geom.rigid(pin, t, a), pin, t, a))
+                if sh.contains_point(np.array(geom.rigid(pout, t, a))):
+                    raise Violation("moved-shape-accepts-outer-point", "shape %d (%s): image of the far point %r is "
+                                    "contained after translate_rotate(%r, %r)" % (i, type(sh).__name__, pout, t, a))
+            if probes:
+                ctx.label("containment-probes")
         if r.get("inverse", True):
             # the library translates first and rotates second; the inverse is two calls (rotate back, translate back)
             back = apply(moved, [0.0, 0.0], -a)
